@@ -1779,3 +1779,153 @@ def cancel_drains(check: Check, repo: Repo, rule: str = "CANCEL-DRAINS") -> None
         check.ob(rule, m, f"{cname}.{stopper}: undelivered results in self.{attr}", bool(drains),
                  f"drained: {node_text(drains[0], 50)}" if drains else
                  f"{cname}.{stopper} (and the helpers it calls) never reads self.{attr}: work carried by buffered results is not cancelled")
+
+
+def unintegrated_work(check: Check, repo: Repo, rule: str = "UNINTEGRATED-WORK") -> None:
+    from rules.language_rules import norm_facts
+
+    check.rule(
+        rule,
+        "WorkQueue: the streams and tasks produced by a task are attached to the graph only when its success event is "
+        "handled (_task_success stores the task node's value, then integrates the work). _cancel_task therefore "
+        "cancels the work carried by the computation's own fulfilled result, and the only exits that skip this are "
+        "under the fact that the result was handled (the task node's value is set): a task that merely *started* - "
+        "its node exists - may have finished with its success event still in the channel, and a nested @stream it "
+        "opened would stay open after aclose()",
+    )
+    ci = ClassIndex(repo).get("execution.incremental.work_queue", "WorkQueue")
+    succ, cancel = ci.methods().get("_task_success"), ci.methods().get("_cancel_task")
+    if succ is None or cancel is None:
+        raise AnalysisError("WorkQueue._task_success / _cancel_task not found")
+    # the integration witness: the attribute of the task node written by the success handler
+    wit = [t for s in walk_body(succ) if isinstance(s, ast.Assign) for t in s.targets
+           if isinstance(t, ast.Attribute) and isinstance(t.value, ast.Name) and "node" in t.value.id]
+    integ = [c for c in walk_body(succ) if isinstance(c, ast.Call) and "integrate" in call_name(c)]
+    if len(wit) != 1 or not integ:
+        raise AnalysisError("_task_success: `task_node.<attr> = value` followed by the integration of the work not found")
+    attr = wit[0].attr
+    check.ob(rule, succ, f"_task_success records the handled result (`{unparse(wit[0])}`) and integrates the work", wit[0].lineno < integ[0].lineno,
+             f"`{unparse(wit[0])} = ...` at line {wit[0].lineno}, {call_name(integ[0])}() at line {integ[0].lineno}")
+    cfg = CFG(cancel)
+    ff = FactFlow(cfg)
+    reads = [n for n in walk_body(cancel) if isinstance(n, ast.Attribute) and n.attr == "fulfilled_value"]
+    if not reads:
+        check.ob(rule, cancel, "_cancel_task cancels the work of a fulfilled but unhandled computation", False,
+                 "no read of <computation>.fulfilled_value: work of a finished task whose event is still queued is never cancelled")
+        return
+    read_nodes = set(cfg.node_for_expr(reads[0]))
+    work_calls = [c for c in walk_body(cancel) if isinstance(c, ast.Call) and call_name(c).split(".")[-1] in ("_cancel_task", "_cancel_stream")
+                  and any(isinstance(a, ast.For) and "work" in unparse(a.iter) for a in ancestors(c))]
+    check.ob(rule, reads[0], "_cancel_task cancels the tasks and streams of the unhandled result", len(work_calls) >= 2,
+             f"{len(work_calls)} cancel calls over result.work.*" if len(work_calls) >= 2 else "the work of the fulfilled result is read but not cancelled (tasks and streams)")
+    dom = cfg.dominators(follow=no_exc)
+    for r in [n for n in walk_body(cancel) if isinstance(n, ast.Return)]:
+        rn = cfg.nodes_of(r)
+        if not rn or any(d in read_nodes for d in dom.get(rn[0], ())):
+            continue
+        facts = norm_facts(ff.facts_at(r))
+        ok = any(p is False and t.endswith(f".{attr} is _UNSET") for t, p in facts) or any(p is True and t.endswith(f".{attr} is not _UNSET") for t, p in facts)
+        check.ob(rule, r, f"_cancel_task: exit at line {r.lineno} skips the un-integrated work", ok,
+                 f"only under `<task node>.{attr} is not _UNSET` (result handled, work integrated)" if ok else
+                 f"not guarded by `<task node>.{attr} is not _UNSET`: a started task whose result is still queued keeps its nested streams open")
+
+
+def abort_callback(check: Check, repo: Repo, rule: str = "ABORT-CALLBACK") -> None:
+    check.rule(
+        rule,
+        "Computation.abort: once the computation is found pending, the only way around the abort callback is the "
+        "absence of a callback - every normal path from the start of the pending arm to the function's exit passes "
+        "the call of the callback or the false edge of a pure presence test (`on_abort is not None`). The callback is "
+        "what stops the sub-executor and closes the streams the computation has already opened; making it depend on "
+        "anything else (the outcome of future.cancel(), which is False for a future that is done but not yet settled) "
+        "leaves those sources open",
+    )
+    fn = repo.func("execution.incremental.computation", "Computation.abort")
+    cfg = CFG(fn)
+    arms = [i for i in walk_body(fn) if isinstance(i, ast.If) and "_PENDING" in unparse(i.test)]
+    if len(arms) != 1:
+        raise AnalysisError("Computation.abort: pending arm not found")
+    arm = arms[0]
+    # the callback: a local holding self._on_abort, or the attribute itself
+    cb_names = {"self._on_abort"} | {t.id for s in walk_body(fn) if isinstance(s, ast.Assign) and unparse(s.value) == "self._on_abort"
+                                     for t in s.targets if isinstance(t, ast.Name)}
+    calls = [c for s in arm.body for c in ast.walk(s) if isinstance(c, ast.Call) and unparse(c.func) in cb_names]
+    if not calls:
+        check.ob(rule, arm, "Computation.abort: pending arm invokes the abort callback", False, "no call of the on_abort callback in the pending arm")
+        return
+    call_nodes = {n for c in calls for n in cfg.node_for_expr(c)}
+
+    def presence(e: ast.AST) -> bool:
+        t = unparse(e)
+        return any(t in (n, f"{n} is not None", f"callable({n})") for n in cb_names)
+
+    def follow(a, b, label) -> bool:
+        if not no_exc(a, b, label):
+            return False
+        if label and label[0] == "cond" and label[2] is False and presence(label[1]):
+            return False
+        if label and label[0] == "cond" and label[2] is True and any(unparse(label[1]) == f"{n} is None" for n in cb_names):
+            return False
+        return True
+
+    start = cfg.nodes_of(arm.body[0])[0]
+    path = cfg.find_path(start, lambda nd: nd is cfg.exit, follow=follow, avoid=lambda nd: nd in call_nodes)
+    check.ob(rule, calls[0], "Computation.abort: a pending computation with a callback always runs the callback", path is None,
+             "every normal path through the pending arm passes the callback call or the absence test" if path is None else
+             "the callback can be skipped although one is set: " + cfg.describe_path(path)[-220:])
+
+
+def handover_owner(check: Check, repo: Repo, rule: str = "HANDOVER-OWNER") -> None:
+    check.rule(
+        rule,
+        "list completion hands the rest of the source to the stream machinery with handle_stream(index, path, "
+        "<iterator>, ...) and leaves its loop; from that `break` on the stream queue owns the iterator (it advances it "
+        "and closes it exactly once when the stream ends, fails or is pruned). Nothing reachable from the handover - "
+        "on normal or exceptional edges - advances or closes the iterator again, neither directly nor through an alias "
+        "of its aclose/close (early_return): a second close violates 'closed exactly once' as soon as an initial item "
+        "fails after the stream has started",
+    )
+    n = 0
+    for q in ("Executor.complete_async_iterator_value", "Executor.complete_iterable_value"):
+        fn = repo.func("execution.executor", q)
+        hand = [c for c in walk_body(fn) if isinstance(c, ast.Call) and call_name(c).split(".")[-1] == "handle_stream"]
+        if len(hand) != 1 or len(hand[0].args) < 3 or not isinstance(hand[0].args[2], ast.Name):
+            raise AnalysisError(f"{q}: handle_stream(index, path, <iterator>, ...) call not found")
+        it = hand[0].args[2].id
+        owner_if = next((a for a in ancestors(hand[0]) if isinstance(a, ast.If)), None)
+        brk = [s for s in (owner_if.body if owner_if is not None else []) if isinstance(s, ast.Break)]
+        if not brk:
+            raise AnalysisError(f"{q}: the loop is not left after a successful handover")
+        aliases = {it}
+        for s in walk_body(fn):
+            if isinstance(s, ast.Assign) and any(isinstance(x, ast.Attribute) and isinstance(x.value, ast.Name) and x.value.id == it for x in ast.walk(s.value)):
+                aliases |= {t.id for t in s.targets if isinstance(t, ast.Name)}
+        cfg = CFG(fn, implicit_raise=True)
+        reach = cfg.reachable(cfg.nodes_of(brk[0]))
+        uses = []
+        for nd in reach:
+            if nd.ast is None or nd.kind not in ("stmt", "test", "return", "raise", "with", "for"):
+                continue
+            top = nd.ast
+            for x in ([top] if nd.kind == "test" else _own_exprs(top)):
+                for c in ast.walk(x):
+                    if isinstance(c, ast.Call) and any(isinstance(y, ast.Name) and y.id in aliases for y in ast.walk(c)):
+                        uses.append(c)
+        n += 1
+        check.ob(rule, brk[0], f"{q}: `{it}` is not touched after the handover to the stream", not uses,
+                 f"{len(reach)} CFG nodes reachable from the handover, none calls through {sorted(aliases)}" if not uses else
+                 "; ".join(sorted({f"line {u.lineno}: `{unparse(u)[:60]}`" for u in uses})) + " is reachable after the stream queue took the iterator over")
+    check.floor(rule, 2, "list completion functions with a stream handover")
+
+
+def _own_exprs(stmt: ast.AST) -> list[ast.AST]:
+    """Expressions evaluated by the statement node itself (not by nested statements)."""
+    if isinstance(stmt, (ast.If, ast.While)):
+        return [stmt.test]
+    if isinstance(stmt, (ast.For, ast.AsyncFor)):
+        return [stmt.iter]
+    if isinstance(stmt, (ast.With, ast.AsyncWith)):
+        return [i.context_expr for i in stmt.items]
+    if isinstance(stmt, (ast.Try, ast.FunctionDef, ast.AsyncFunctionDef, ast.ClassDef)):
+        return []
+    return [stmt]
